@@ -200,6 +200,64 @@ def cmd_run(a):
         shutil.rmtree(a.base, ignore_errors=True)
 
 
+def cmd_seeded(a):
+    """every seeded change (seeded/<id>/patch.diff) x all twenty quick checks, in scratch worktrees; writes seeded/<id>/result.json
+    and seeded/MATRIX.md"""
+    import queue
+    import threading
+    ids = sorted(d for d in os.listdir(os.path.join(VERIF, "seeded")) if os.path.isfile(os.path.join(VERIF, "seeded", d, "patch.diff")))
+    if a.only:
+        ids = [i for i in ids if i in a.only.split(",")]
+    checks = ["C%02d" % i for i in range(1, 21)]
+    workers = [setup_worker(k, a.base) for k in range(a.workers)]
+    q = queue.Queue()
+    for i in ids:
+        q.put(i)
+    results, lock = {}, threading.Lock()
+
+    def work(k):
+        repo, verif = workers[k]
+        while True:
+            try:
+                sid = q.get_nowait()
+            except queue.Empty:
+                return
+            sh(["git", "-C", repo, "checkout", "-q", "--", "."])
+            rc, out = sh(["git", "-C", repo, "apply", os.path.join(VERIF, "seeded", sid, "patch.diff")])
+            res = dict(id=sid, applies=(rc == 0), flagged={}, infra=[])
+            if rc == 0:
+                env2 = dict(os.environ, NPTDMS_REPO=repo)
+                for c in checks:
+                    rc2, o = sh([os.path.join(verif, "check"), c], cwd=verif, env=env2, timeout=1200)
+                    if rc2 == 1:
+                        vl = [l for l in o.split("\n") if l.startswith("VIOLATION")]
+                        what = [l.strip() for l in o.split("\n") if l.startswith("  ")][:1]
+                        res["flagged"][c] = dict(no_input=all("no-failing-input-found" in l for l in vl), what=(what or [""])[0][:240])
+                    elif rc2 != 0:
+                        res["infra"].append(c)
+            sh(["git", "-C", repo, "checkout", "-q", "--", "."])
+            shutil.rmtree(os.path.join(verif, "replay"), ignore_errors=True)
+            with lock:
+                results[sid] = res
+                json.dump(res, open(os.path.join(VERIF, "seeded", sid, "result.json"), "w"), indent=1)
+                print(sid, "applies" if res["applies"] else "DOES NOT APPLY", sorted(res["flagged"]), res["infra"], flush=True)
+    with ThreadPoolExecutor(a.workers) as ex:
+        list(ex.map(work, range(a.workers)))
+    lines = ["# Seeded changes x checks (quick tier, seed 0)", "",
+             "`X` = the check reports a violation with a failing input; `x` = only through a broken obligation / correspondence (`no-failing-input-found`).", "",
+             "| seeded change | own | " + " | ".join(c[1:] for c in checks) + " |", "|---|---|" + "---|" * len(checks)]
+    for sid in ids:
+        r = results.get(sid) or json.load(open(os.path.join(VERIF, "seeded", sid, "result.json")))
+        own = sid[:3]
+        cells = [("x" if r["flagged"][c]["no_input"] else "X") if c in r["flagged"] else ("!" if c in r["infra"] else "") for c in checks]
+        lines.append("| %s | %s | %s |" % (sid, "caught" if own in r["flagged"] else ("patch does not apply" if not r["applies"] else "**MISSED**"), " | ".join(cells)))
+    open(os.path.join(VERIF, "seeded", "MATRIX.md"), "w").write("\n".join(lines) + "\n")
+    if a.cleanup:
+        for k in range(a.workers):
+            sh(["git", "-C", "/repo", "worktree", "remove", "--force", workers[k][0]])
+        shutil.rmtree(a.base, ignore_errors=True)
+
+
 def cmd_report(a):
     rs = [json.loads(l) for l in open(a.results)]
     by = {}
@@ -223,6 +281,8 @@ if __name__ == "__main__":
     r = sub.add_parser("run"); r.add_argument("--mutants", default="/tmp/mw/mutants.json"); r.add_argument("--workers", type=int, default=6)
     r.add_argument("--out", default=os.path.join(VERIF, "mutation", "results.jsonl")); r.add_argument("--base", default="/tmp/mw")
     r.add_argument("--checks", default=""); r.add_argument("--cleanup", action="store_true")
+    sd = sub.add_parser("seeded"); sd.add_argument("--workers", type=int, default=6); sd.add_argument("--base", default="/tmp/mwseed")
+    sd.add_argument("--only", default=""); sd.add_argument("--cleanup", action="store_true")
     p = sub.add_parser("report"); p.add_argument("--results", default=os.path.join(VERIF, "mutation", "results.jsonl"))
     a = ap.parse_args()
-    {"gen": cmd_gen, "run": cmd_run, "report": cmd_report}[a.cmd](a)
+    {"gen": cmd_gen, "run": cmd_run, "report": cmd_report, "seeded": cmd_seeded}[a.cmd](a)
